@@ -29,6 +29,7 @@ SCATTER = [7, 2, 9, 4, 11, 5, 13, 1]
 EXTRAS = ((), ("a",), ("a", "b"))
 # table / tree forms also carry non-float columns: 64-bit integers beyond 2^53 (not representable as doubles) and strings
 EXTRAS_TYPED = (("big",), ("a", "big"), ("big", "s"), ("nan",), ("a", "nan", "obj"), ("allnan", "a"))
+EXTRAS_ND = (("vec",), ("a", "vec", "mat"))  # tree form only: columns of shape (n, 3) and (n, 2, 2)
 FILE_COLS = ("a", "b")
 
 
@@ -52,9 +53,11 @@ def attrs(n, tagged):
             rows.append({"type": 1 + (i * 2) % 5, "x": 100.0 + i, "y": 0.5 * i, "z": -1.25 * i, "r": 0.25 + i, "a": 7.5 - i, "b": float(3 * i % 4),
                          "big": 2**53 + 1 + 2 * i, "s": f"n{i}",
                          # columns with missing values: NaN at every other node / None in an object column / all NaN
-                         "nan": float("nan") if i % 2 else 20.5 + i, "obj": None if i % 3 == 1 else f"o{i}", "allnan": float("nan")})
+                         "nan": float("nan") if i % 2 else 20.5 + i, "obj": None if i % 3 == 1 else f"o{i}", "allnan": float("nan"),
+                         # per-node data with more than one value per node: a direction vector, a 2x2 block
+                         "vec": [1.0 + i, -2.0 * i, 0.5], "mat": [[float(i), 1.0], [2.0, float(-i)]]})
         else:
-            rows.append({"type": 3, "x": 1.0, "y": 2.0, "z": 3.0, "r": 0.5, "a": 4.0, "b": 6.0, "big": 2**53 + 1, "s": "n", "nan": float("nan"), "obj": None, "allnan": float("nan")})
+            rows.append({"type": 3, "x": 1.0, "y": 2.0, "z": 3.0, "r": 0.5, "a": 4.0, "b": 6.0, "big": 2**53 + 1, "s": "n", "nan": float("nan"), "obj": None, "allnan": float("nan"), "vec": [1.0, 2.0, 3.0], "mat": [[0.0, 1.0], [2.0, 3.0]]})
     return rows
 
 
@@ -125,7 +128,7 @@ def check_tree_form(case, R):
         R.trivial()
     R.state(p, extras, tagged)
     rows = attrs(n, tagged)
-    dt = {"a": np.float64, "b": np.float32, "big": np.int64, "s": "U6", "nan": np.float64, "obj": object, "allnan": np.float32}
+    dt = {"a": np.float64, "b": np.float32, "big": np.int64, "s": "U6", "nan": np.float64, "obj": object, "allnan": np.float32, "vec": np.float64, "mat": np.float32}
     extra = {k: np.array([rows[i][k] for i in range(n)], dtype=dt[k]) for k in extras}
     t = build.make_tree(p, xyz=[(rows[i]["x"], rows[i]["y"], rows[i]["z"]) for i in range(n)], r=[rows[i]["r"] for i in range(n)],
                         types=[rows[i]["type"] for i in range(n)], extra=extra)
@@ -405,6 +408,32 @@ def check_shared_columns(case, R):
 
 
 
+def check_tree_ids(case, R):
+    """The tree form with an ID COLUMN that is not the row position (rows in any order, ids 1-based / scattered / reversed, parents
+    named by id): sort_tree must relabel it like any other numbering."""
+    from swcgeom.core import Tree, sort_tree
+
+    p, order, mapk = list(case[0]), list(case[1]), case[2]
+    n = len(p)
+    R.state(p, order, mapk)
+    rows = attrs(n, True)
+    idmap = id_map(mapk, n)
+    trows = make_rows(p, order, idmap, rows, ("a",))
+    col = lambda k, dt: np.array([d[k] for d in trows], dtype=dt)  # noqa: E731
+    t = Tree(n, id=col("id", np.int32), pid=col("pid", np.int32), type=col("type", np.int32), x=col("x", np.float32), y=col("y", np.float32),
+             z=col("z", np.float32), r=col("r", np.float32), a=col("a", np.float64))
+    snap = build.snapshot(t)
+    ok, s1 = R.impl("sort_tree", sort_tree, t, klass="raises:sort_tree:id-column-not-row-position")
+    if not ok:
+        return
+    R.check(build.snapshot(t) == snap, "input-modified", f"sort_tree p={p} order={order} ids={mapk}", "sort_tree:input-modified")
+    c = build.tree_cols(s1)
+    if all(k in c for k in ("type", "x", "y", "z", "r", "a")):
+        judge(R, "sort_tree(id column != row position)", p, rows, ("a",), True, [int(v) for v in c["id"]], [int(v) for v in c["pid"]], c)
+        R.outcome(tuple(int(v) for v in c["pid"]))
+
+
+
 def spaces(tier, seed):
     tree_hi = 6 if tier == "quick" else 7
     tab_full = 4 if tier == "quick" else 5
@@ -413,7 +442,7 @@ def spaces(tier, seed):
     def gen_tree():
         for n in range(1, tree_hi + 1):
             for p in S.labelled_trees(n):
-                for ex in EXTRAS + (EXTRAS_TYPED if n <= tree_hi - 1 else EXTRAS_TYPED[-1:]):
+                for ex in EXTRAS + (EXTRAS_TYPED + EXTRAS_ND if n <= tree_hi - 1 else EXTRAS_TYPED[-1:] + EXTRAS_ND[-1:]):
                     for tagged in (True, False):
                         yield (p, ex, tagged)
 
@@ -464,6 +493,8 @@ def spaces(tier, seed):
                     yield (p, kind)
 
     return [
+        Space.of("tree-form-id-column", lambda: ((p, order, mk) for n in range(1, tab_full + 1) for p in S.labelled_trees(n) for order in row_orders(n, True) for mk in ID_MAPS),
+                 check_tree_ids, bounds={"LT_max_nodes": tab_full, "row_orders": "all", "id_maps": list(ID_MAPS)}),
         Space.of("sort-edit-sort", gen_ses, check_sort_edit_sort,
                  bounds={"LT_max_nodes": ses_hi, "edits": "re-rooting at every node without sorting; every single re-parenting of the sorted tree (node handle / column / on a copy)"}),
         Space.of("columns-sharing-storage", gen_shared, check_shared_columns, bounds={"LT_max_nodes": tree_hi, "kinds": ["same-object", "view", "one-block"]}),
